@@ -228,3 +228,20 @@ Proof.
 Qed.
 Theorem nil_only_itself y : equals VNil y = true <-> y = VNil.
 Proof. unfold equals. simpl. destruct y; simpl; split; try discriminate; auto. Qed.
+
+(** * NaN *)
+Theorem nan_never_equal k y : equals (VNum k NaN) y = false /\ equals y (VNum k NaN) = false.
+Proof.
+  unfold equals, py_eq. simpl is_bool_or_nil. split.
+  - destruct (is_bool_or_nil y) eqn:G; simpl orb; cbv iota.
+    + destruct y; try discriminate; reflexivity.
+    + rewrite eqd_atom_l by reflexivity. destruct y; try reflexivity; discriminate.
+  - rewrite orb_false_r. destruct (is_bool_or_nil y) eqn:G.
+    + destruct y; try discriminate; reflexivity.
+    + rewrite eqd_atom_r by reflexivity. destruct y; try reflexivity; try discriminate.
+      simpl. destruct n; reflexivity.
+Qed.
+
+(** * every sequential type hashes alike (F-05a repaired; breaks if a family changes) *)
+Theorem seq_hash_kind_independent k k' l : hash_of (VSeq k l) = hash_of (VSeq k' l).
+Proof. simpl. rewrite !family_ok. reflexivity. Qed.
